@@ -142,6 +142,9 @@ pub struct ParModel {
     /// capacity of the process queue (16 in the code)
     pub process_cap: usize,
     /// whether the source performs an (empty) fill on the end-of-input read
+    /// an empty block is enqueued for the hashing thread on the end-of-input read. The code did so (for
+    /// sources that fill on that read) until its empty-fill repair; it no longer does, and every
+    /// instance bound to the code uses `false`.
     pub fill_at_end: bool,
     /// seeded protocol defect (None = the protocol as implemented)
     pub bug: Option<Bug>,
